@@ -126,6 +126,10 @@ type recState struct {
 	ncalls  map[string]int
 	verCtr  int
 	byUser  bool
+	// ukind/uk/uver: the user write being committed (copied into its commit event: the linearization point)
+	ukind string
+	uk    int
+	uver  int
 	lastRev statedb.Revision
 	known   map[uint64]*recObj
 	initFn  func(statedb.WriteTxn)
@@ -265,7 +269,12 @@ func (st *recState) onCommit(point string) {
 	init, _ := st.table.Initialized(rt)
 	// (commitMu is held by this goroutine: log directly)
 	st.mu.Lock()
-	st.log.Emit(Ev{"op": "commit", "by": by, "t": st.now(), "rev": int(rev), "changes": changes, "init": init, "all": all})
+	ev := Ev{"op": "commit", "by": by, "t": st.now(), "rev": int(rev), "changes": changes, "init": init, "all": all,
+		"ukind": "", "uk": 0, "uver": 0}
+	if st.byUser {
+		ev["ukind"], ev["uk"], ev["uver"] = st.ukind, st.uk, st.uver
+	}
+	st.log.Emit(ev)
 	st.mu.Unlock()
 }
 
@@ -315,7 +324,7 @@ func (st *recState) userWrite(kind string, k int) {
 	}
 	rev := st.table.Revision(wtxn)
 	st.emit(Ev{"op": "user", "kind": kind, "k": k, "ver": ver, "found": found, "rev": int(rev), "t": st.now()})
-	st.byUser = true
+	st.byUser, st.ukind, st.uk, st.uver = true, kind, k, ver
 	wtxn.Commit()
 	st.byUser = false
 }
